@@ -135,8 +135,12 @@ package executor
 // C03: no error list  ==>  every parameter mutator and every context mutator returned nil, the document was parsed
 // from the (possibly mutated) query text and validated, the operation was found by name, variables coerced.
 // An error list is never empty. (Refines the interface contract in graphql/verif_contracts.go.)
-//@ func (*Executor).CreateOperationContext [C03,C09,C02,C14,C15]
+//@ func (*Executor).CreateOperationContext [C03,C09,C02,C14,C15,C16]
 //@   requires e != nil && params != nil
+// C16 "with introspection disabled ... reveals nothing": introspection is off for every operation unless an
+// extension switches it on for that operation - the operation context is created with it disabled (what the
+// mutators - user code - then do with the flag is theirs)
+//@   at! `assign opCtx` requires rhs0 != nil && rhs0.DisableIntrospection
 //@   safe
 //@   ghost rejected = false
 //@   ghost coerceFailed = false
